@@ -38,6 +38,11 @@ OPTS = [
     (["--file-style", "red bold"], ("file-style", "red bold"), "omit-file"),
     (["--commit-style", "yellow"], ("commit-style", "yellow"), "omit-commit"),
     (["--hunk-header-style", "file line-number syntax"], ("hunk-header-style", "file line-number syntax"), "hunk-header-words"),
+    # decorations asked for inside a style string (not through the *-decoration-style option)
+    (["--file-style", "red box"], ("file-style", "red box"), "omit-file"),
+    (["--commit-style", "box"], ("commit-style", "box"), "omit-commit"),
+    (["--hunk-header-style", "raw box"], ("hunk-header-style", "raw box"), None),
+    (["--file-style", "raw overline"], ("file-style", "raw overline"), None),
 ]
 
 
@@ -94,12 +99,17 @@ def run(tier):
         per = 14 if tier == "quick" else 40
         for h in rnd.sample(hists, per):
             jobs.append((h, args, over, si % 5, [OPTS[i][1][0] for i in sub], via_gitconfig))
+    # lines longer than the default --max-line-length (a recorded finding, see known_findings.json)
+    Lk = lambda c, f=0, g=0, kd="": {"c": c, "f": f, "g": g, "kd": kd}
+    long_h = [Lk("diff", 1, 1, "mod"), Lk("index"), Lk("mmm", 1), Lk("ppp", 1), Lk("hh"), Lk("zero"), Lk("minus"), Lk("plus")]
+    jobs.append((long_h, ["--no-gitconfig", "--color-only"], [], 0, ["(a 3500-character line)"], False))
     log(f"[{PID}] {len(subsets)} option sets x histories = {len(jobs)} runs")
     intern = gitskin.Interner()
 
     def one(job):
         h, args, over, variant, names, via = job
-        data, texts = gitskin.concretise(h, payload=tab_payload, skin={"frag": ["std", "none", "numbers", "space"][variant % 4]})
+        pay = tab_payload if h is not long_h else (lambda k, c: f"tokZ{k}Z " + "x" * (3500 if k >= 7 else 5))
+        data, texts = gitskin.concretise(h, payload=pay, skin={"frag": ["std", "none", "numbers", "space"][variant % 4]})
         if variant:
             texts = gitskin.colourise(h, texts, variant)
             data = "".join(t + "\n" for t in texts).encode()
@@ -131,6 +141,10 @@ def run(tier):
         lost = ""
         if f["why"] == "line-count":
             lost = f" in={len(h)} out={f['at']}"
+        if h is long_h and f["why"] == "text":
+            V.violation("truncation:max-line-length", "--color-only truncates a hunk line longer than the default --max-line-length",
+                        {"history": h, "args": args, "run": r.to_json(), "failure": f})
+            continue
         V.violation(f"{f['why']}:{opts}:{cls}", f"--color-only with {opts} ({'gitconfig' if via else 'command line'}): "
                     f"{f['why']}{lost} on [{stream.shape(h)[:160]}] {('line class ' + cls) if cls else ''}",
                     {"history": h, "args": args, "run": r.to_json(), "failure": f})
